@@ -42,14 +42,16 @@ func (l LengthFilter) ShouldCompress(w http.ResponseWriter) bool {
 // SkipCompressedFilter is ResponseFilter that will discard already compressed responses
 type SkipCompressedFilter struct{}
 
-// ShouldCompress returns true if served file is not already compressed
-// encodings via https://developer.mozilla.org/en-US/docs/Web/HTTP/Headers/Content-Encoding
+// ShouldCompress returns true if the response does not carry a content
+// coding yet. Any other Content-Encoding (gzip, br, zstd, ...) means the
+// body is already encoded: compressing it again would waste cycles, and
+// replacing its Content-Encoding would make it undecodable for the client.
 func (n SkipCompressedFilter) ShouldCompress(w http.ResponseWriter) bool {
 	switch w.Header().Get("Content-Encoding") {
-	case "gzip", "compress", "deflate", "br":
-		return false
-	default:
+	case "", "identity":
 		return true
+	default:
+		return false
 	}
 }
 
